@@ -184,12 +184,13 @@ def rule_eof(ctx):
     for cs in ds:
         g = util.guards_at(ev, cs.bb)
         ctx.check('eof', 'data-slice-guard', '(self.ip + %s) <= self.n_bytes' % lenexpr in g, cs, 'data slice under %s' % [x for x in g if 'n_bytes' in x])
-    errs = [(canon(ev.rvalue_expr(d[3])), util.guards_at(ev, d[1]), d[1]) for d in ev.defs().get(0, []) if d[0] == 'assign']
+    errs = [(canon(ev.rvalue_expr(d[3]) if d[0] == 'assign' else ev.call_expr(d[2])), util.guards_at(ev, d[1]), d[1]) for d in ev.defs().get(0, [])]
     e = [x for x in errs if x[0] == 'Result::Err{0: ScriptError::UnexpectedEof{}}']
     ctx.check('eof', 'overrun-returns-eof', len(e) == 1 and 'self.n_bytes < (self.ip + %s)' % lenexpr in e[0][1], ev,
               'UnexpectedEof under %s' % (e[0][1] if e else '?'))
     # operand-too-short paths of the tokenizer are propagated with `?`
-    prop = [d for d in ev.defs().get(0, []) if d[0] == 'call' and mir.method_name(d[2].name) == 'from_residual']
+    prop = [d for d in ev.defs().get(0, []) if d[0] == 'call' and mir.method_name(d[2].name) == 'from_residual'
+            and canon(ev.call_expr(d[2])).startswith('from_residual(')]
     ctx.check('eof', 'tokenizer-error-propagated', len(prop) == 1, ev, '`?` on maybe_push_data')
     # entry point mapping
     en = prog.one('custom::eval_from_bytes_custom')
@@ -201,7 +202,7 @@ def rule_eof(ctx):
     nr = 'EvaluatedScript::EvaluatedScript{address: Option::None{}, pattern: ScriptPattern::NotRecognised{}}'
     ctx.check('eof', 'eof->NotRecognised-no-address', rets.get(nr) == ['(eval(new(a1)) as Err).0 is UnexpectedEof', 'eval(new(a1)) is Err'], en,
               'Err(UnexpectedEof) -> %s' % ('NotRecognised/None' if nr in rets else sorted(rets)))
-    ctx.check('eof', 'ok->eval_from_stack', rets.get('eval_from_stack((eval(new(a1)) as Ok).0, a2)') == ['eval(new(a1)) is Ok'], en, 'Ok(stack) -> eval_from_stack(stack, version)')
+    ctx.check('eof', 'ok->eval_from_stack', rets.get('eval_from_stack(eval(new(a1))?, a2)') == ['eval(new(a1)) is Ok'], en, 'Ok(stack) -> eval_from_stack(stack, version)')
     # n_bytes: written only by the constructor, from bytes.len()
     nw = prog.one(EV + 'new')
     ctx.touch(nw)
@@ -231,7 +232,7 @@ def rule_noop(ctx):
         ctx.check('noop', 'op-only-for-zero-length', '%s? <= 0' % lenc in g or '%s <= 0' % lenc in g, cs, 'Op token only when push length is 0')
         ctx.check('noop', 'op-is-the-fetched-opcode', canon(ev.op_expr(cs.args[1])) == 'StackElement::Op{0: self.bytes[self.ip]}', cs, canon(ev.op_expr(cs.args[1])))
     for cs in dat:
-        g = util.guards_at(ev, cs.bb)
+        g = util.guards_for(ev, cs.bb, cs.args[1])
         ctx.check('noop', 'data-only-for-positive-length', any(x.startswith('0 < %s' % lenc) for x in g), cs, 'Data token only when push length > 0')
     # the token vector is the one matched against the templates and returned
     r = [canon(ev.rvalue_expr(d[3])) for d in ev.defs().get(0, []) if d[0] == 'assign' and canon(ev.rvalue_expr(d[3])).startswith('Result::Ok')]
@@ -289,7 +290,7 @@ def rule_templates(ctx):
         ctx.check('templates', 'template:%s' % var, t == TEMPLATES.get(var), (p, d[1]), '%s <- %s' % (var, t),
                   bad_detail='%s is reported for token sequence %s, reference template is %s' % (var, t, TEMPLATES.get(var)))
         if var == 'OpReturn':
-            ctx.check('templates', 'opreturn-payload=data-token', c == 'ScriptPattern::OpReturn{0: from_utf8_lossy((data(a1[1]) as Ok).0)}', (p, d[1]), c)
+            ctx.check('templates', 'opreturn-payload=data-token', c == 'ScriptPattern::OpReturn{0: from_utf8_lossy(data(a1[1])?)}', (p, d[1]), c)
     ctx.check('templates', 'five-templates', set(seen) == set(TEMPLATES), p, 'templates for %s' % sorted(seen))
     # templates are pairwise non-overlapping (different length or a differing opcode position), so order is irrelevant
     ts = list(TEMPLATES.items())
@@ -345,7 +346,7 @@ def rule_addr(ctx):
     es = prog.one('custom::eval_from_stack')
     ctx.touch(es)
     rets = sorted(canon(es.rvalue_expr(d[3])) for d in es.defs().get(0, []) if d[0] == 'assign')
-    ctx.check('addr', 'errors-carry-no-address', all('address: Option::None{}' in r or r == '(compute_stack(a1, a2) as Ok).0' for r in rets) and len(rets) == 3, es, '%s' % rets)
+    ctx.check('addr', 'errors-carry-no-address', all('address: Option::None{}' in r or r == 'compute_stack(a1, a2)?' for r in rets) and len(rets) == 3, es, '%s' % rets)
     # Base58Check
     h = prog.one('custom::hash_160_to_address')
     ctx.touch(h)
